@@ -151,7 +151,7 @@ func drawGrid(t *rapid.T, maxDeg int) gridCase {
 }
 
 func TestIntegrateGrid(t *testing.T) {
-	vk.Run(t, "integrate-grid", vk.Opts{Quick: 12000, Thorough: 300000, NoCrumb: true}, func(t *rapid.T) gridCase {
+	vk.Run(t, "integrate-grid", vk.Opts{Quick: 12000, Thorough: 1000000, NoCrumb: true}, func(t *rapid.T) gridCase {
 		return drawGrid(t, 3)
 	}, checkGrid)
 }
@@ -159,10 +159,10 @@ func TestIntegrateGrid(t *testing.T) {
 // ---- Romberg ------------------------------------------------------------------
 
 type rombergCase struct {
-	K     int // 2^K+1 samples
-	A     int // left end in units of 1/4
-	LExp  int // interval length 2^LExp
-	C     []int
+	K    int // 2^K+1 samples
+	A    int // left end in units of 1/4
+	LExp int // interval length 2^LExp
+	C    []int
 }
 
 func checkRomberg(c rombergCase) *vk.Failure {
@@ -200,7 +200,7 @@ func checkRomberg(c rombergCase) *vk.Failure {
 }
 
 func TestRomberg(t *testing.T) {
-	vk.Run(t, "integrate-romberg", vk.Opts{Quick: 4000, Thorough: 100000, NoCrumb: true}, func(t *rapid.T) rombergCase {
+	vk.Run(t, "integrate-romberg", vk.Opts{Quick: 4000, Thorough: 300000, NoCrumb: true}, func(t *rapid.T) rombergCase {
 		k := rapid.IntRange(1, 7).Draw(t, "k")
 		deg := 2*k + 1
 		if rapid.IntRange(0, 2).Draw(t, "lower") == 0 {
